@@ -43,6 +43,11 @@ pub struct NetCfg {
     /// holds one Ready GameServer at the first scripted target's address
     #[serde(default)]
     pub agones: bool,
+    /// (with `use_start`) the secret reaches the application the way an operator gives it: through the environment
+    /// variable (0) or the secret file (1) and `Config::read()`; the index names the entry of `SECRET_SOURCES`,
+    /// and `secret` holds what the operator wrote
+    #[serde(default)]
+    pub secret_source: Option<(u8, usize)>,
 }
 
 impl Default for NetCfg {
@@ -56,6 +61,7 @@ impl Default for NetCfg {
             limiter: None,
             use_start: false,
             agones: false,
+            secret_source: None,
         }
     }
 }
@@ -155,6 +161,48 @@ impl NetOutcome {
     }
 }
 
+/// Secrets as operators write them (environment variable or secret file).
+pub const SECRET_SOURCES: &[&str] = &["s3cret", "004815162342", "1e3", "TRUE", "false", " 12 ", "0x10", "1_000", "-0", "null", "a,b", "secret\n", "12345678901234567890", "1.50"];
+
+static LOADED: std::sync::OnceLock<Vec<[Option<String>; 2]>> = std::sync::OnceLock::new();
+
+/// Runs the application's configuration loader once per secret and source. Must be called at process start,
+/// before any other thread exists (it sets environment variables).
+pub fn preload_secrets() {
+    let file = std::env::temp_dir().join(format!("verif-auth-secret-{}", std::process::id()));
+    let mut out = vec![];
+    for raw in SECRET_SOURCES {
+        let mut pair: [Option<String>; 2] = [None, None];
+        // SAFETY: single-threaded at this point
+        unsafe {
+            std::env::set_var("CONFIG_FILE", "/nonexistent/verif-config");
+            std::env::set_var("AUTH_SECRET_FILE", "/nonexistent/verif-secret");
+            std::env::set_var("PASSAGE_AUTHSECRET", raw);
+        }
+        pair[0] = passage::config::Config::read().ok().and_then(|c| c.auth_secret);
+        unsafe {
+            std::env::remove_var("PASSAGE_AUTHSECRET");
+        }
+        if std::fs::write(&file, raw).is_ok() {
+            unsafe {
+                std::env::set_var("AUTH_SECRET_FILE", &file);
+            }
+            pair[1] = passage::config::Config::read().ok().and_then(|c| c.auth_secret);
+        }
+        out.push(pair);
+    }
+    unsafe {
+        std::env::remove_var("CONFIG_FILE");
+        std::env::remove_var("AUTH_SECRET_FILE");
+    }
+    let _ = std::fs::remove_file(&file);
+    let _ = LOADED.set(out);
+}
+
+pub fn loaded_secret(kind: u8, idx: usize) -> Option<String> {
+    LOADED.get().and_then(|v| v.get(idx)).and_then(|p| p.get(kind as usize).cloned().flatten())
+}
+
 fn build_start_config(sc: &NetScenario) -> passage::config::Config {
     use passage::config as pc;
     let mut c = pc::Config::default();
@@ -166,7 +214,11 @@ fn build_start_config(sc: &NetScenario) -> passage::config::Config {
     if let Some(e) = sc.cfg.expiry {
         c.auth_cookie_expiry = e;
     }
-    c.auth_secret = sc.cfg.secret.as_ref().map(|s| String::from_utf8_lossy(s).to_string());
+    c.auth_secret = match sc.cfg.secret_source {
+        // what the application's own configuration loader made of the operator's text (read once at process start)
+        Some((kind, idx)) => loaded_secret(kind, idx),
+        None => sc.cfg.secret.as_ref().map(|s| String::from_utf8_lossy(s).to_string()),
+    };
     c.rate_limiter = sc.cfg.limiter.map(|(d, l)| pc::RateLimiter { duration: d / 1_000_000_000, limit: l });
     c.proxy_protocol = sc.cfg.proxy.map(|(v1, v2)| pc::ProxyProtocol { allow_v1: v1, allow_v2: v2 });
     // built-in adapters mirroring the scripted defaults as far as they can
